@@ -336,8 +336,8 @@ Proof.
   rewrite E1, E2. cbn. split; reflexivity.
 Qed.
 
-(* ------------------------------------------------------------------ F19e repaired (notes/fix_C19_6.diff): transfer is on
-   only if a root directory has been accepted *)
+(* ------------------------------------------------------------------ F19e repaired (tree since 2a9083d = notes/fix_C19_6.diff):
+   transfer is on only if a root directory has been accepted *)
 Definition root_justified (env : tenv) (st : tinit) : Prop :=
   t_rootset st = true -> exists p, dir_ok env p = true /\ 0 < Zlength p /\ t_root st = strip_slash p.
 
@@ -407,3 +407,9 @@ Example tight_no_root_fixed_w :
   t_effective false (run_args {| pw_home := None; dir_ok := fun _ => true |} tinit0 [[45; 120]]) = true /\
   t_effective true (run_args {| pw_home := None; dir_ok := fun _ => true |} tinit0 [s_ftproot; [47]]) = true.
 Proof. vm_compute. auto. Qed.
+
+(* regression witness for the flow before 2a9083d ([t_effective false]): on, with the empty root *)
+Theorem tight_enabled_implies_root_before_fix_refuted : exists env args,
+  t_effective false (run_args env tinit0 args) = true /\ t_root (run_args env tinit0 args) = [] /\
+  t_effective true (run_args env tinit0 args) = false.
+Proof. exists {| pw_home := None; dir_ok := fun _ => true |}, [[45; 120]]. vm_compute. auto. Qed.
